@@ -1109,6 +1109,42 @@ def _register_bounded3():
                         doc="BOUNDED: the keyword-less call builds the density-dependent fields from its own argument (no stale state of the SCF object enters)"))
 
 
+def nat_epsilon_unocc(rng):
+    """get_epsilon_unocc: ascending eigenvalues of D^H H D for D = orth_unocc(orth(W), Z); unchanged by invertible mixing of Z; never below the
+    exact eigenvalues of H in the full cut-off basis (the j-th unoccupied value >= the j-th exact eigenvalue)."""
+    from eminus.dft import H as Hn, get_epsilon_unocc, orth, orth_unocc
+
+    scf, at = _native_scf(Nspin=2, xc="lda,pw", atom="Li")
+    scf._precompute()
+    pre = scf._precomputed
+    W = scf.W
+    Z = [rnd(rng, 2, len(at.Gk2c[ik]), 3) for ik in range(at.kpts.Nk)]
+    eps = np.asarray(get_epsilon_unocc(scf, W, Z, **pre))
+    Zm = [z @ (np.eye(3) + 0.4 * rnd(rng, 3, 3)) for z in Z]
+    eps2 = np.asarray(get_epsilon_unocc(scf, W, Zm, **pre))
+    err = float(np.abs(eps - eps2).max())
+    err = max(err, float(np.max(np.diff(eps, axis=-1) < -1e-12)))
+    D = orth_unocc(at, orth(at, W), Z)
+    for ik in range(at.kpts.Nk):
+        n = len(at.Gk2c[ik])
+        for sp in range(2):
+            d = np.asarray(D[ik][sp])
+            mu = d.conj().T @ np.asarray(Hn(scf, ik, sp, D, **pre))
+            err = max(err, float(np.abs(np.linalg.eigvalsh((mu + mu.conj().T) / 2) - eps[ik, sp]).max()))
+            E = [np.stack([np.eye(n, dtype=complex)] * 2)] * at.kpts.Nk
+            Hm = np.asarray(Hn(scf, ik, sp, E, **pre)) / at.Omega
+            exact = np.linalg.eigvalsh((Hm + Hm.conj().T) / 2)
+            err = max(err, float(np.max(exact[:3] - eps[ik, sp] > 1e-10)))
+    return err
+
+
+register(Obligation(name="C05.get_epsilon_unocc.ascending_subspace_eigenvalues", prop="C05", engine="B", bounded=True,
+                    functions=["eminus.dft:get_epsilon_unocc", "eminus.dft:orth_unocc", "eminus.dft:H"],
+                    run=BoundedNative(nat_epsilon_unocc, 1, tol=1e-8, what="eigenvalues of the unoccupied subspace: ascending, those of D^H H D, unchanged by mixing Z, not below the exact ones (Li, unrestricted, 2 k-points)"),
+                    budget={"quick": 200, "thorough": 600},
+                    doc="BOUNDED: get_epsilon_unocc returns the ascending eigenvalues of the subspace Hamiltonian of the orthonormalised unoccupied orbitals"))
+
+
 def nat_hermitian_even_grid_gga(rng):
     """H on the default (even) FFT grid with a GGA: |<a|Hb> - <Ha|b>| relative to |<a|Hb>|."""
     import eminus
